@@ -93,10 +93,12 @@ def main():
         op = pickle.loads(bytes.fromhex(job['op']))
         import klepto._archives   # import everything before gating
         if job['role'] == 'writer':
-            a = FC.raw_archive(cfg, loc) if op[0] not in ('open',) else None
-            if cfg['kind'] == 'sql': gate_sql(a, job['root'])
             FC.gate = sched_gate               # mutating calls report to the scheduler instead of counting
             report(dict(ready=True)); wait_go()
+            # (the handle is made AFTER the start gate: opening an archive is part of what the process does, and may fall into the middle
+            #  of another process's write)
+            a = FC.raw_archive(cfg, loc) if op[0] not in ('open',) else None
+            if cfg['kind'] == 'sql': gate_sql(a, job['root'])
             if op[0] == 'open' or cfg['kind'] == 'file': FC.install_now(); install_reader_gates(cfg, job.get('fine', False))
             try:
                 FC.do_op(cfg, loc, op, a)
@@ -104,10 +106,10 @@ def main():
             except Exception as e:
                 out['res'] = 'EXC:%s:%s' % (type(e).__name__, str(e)[:100])
         else:
+            report(dict(ready=True)); wait_go()
             a = FC.raw_archive(cfg, loc)
             if cfg['kind'] == 'sql': gate_sql(a, job['root'])
             install_reader_gates(cfg, job.get('fine', False))
-            report(dict(ready=True)); wait_go()
             cv = lambda v: json.dumps(canonv(v), sort_keys=True)
             try:
                 k = op[0]
